@@ -14,7 +14,7 @@ from pams.market import Market  # noqa: E402
 from pams.simulator import Simulator  # noqa: E402
 
 ID = "C12"
-RULE = ("(machine) Hypothesis generates 1-5 markets (initial 1e-3..1e6, drift +-0.01, volatility 0 or 1e-4..0.3), optional "
+RULE = ("(runner) markets configured with marketPrice, fundamentalPrice or both through the real SequentialRunner: the fundamental series starts at fundamentalPrice if given, else marketPrice, and follows the closed form at zero volatility. (machine) Hypothesis generates 1-5 markets (initial 1e-3..1e6, drift +-0.01, volatility 0 or 1e-4..0.3), optional "
         "pairwise correlations from a generated factor matrix (positive definite by construction) and an op sequence over one "
         "real Fundamentals: reads of single times / time lists up to 450 steps ahead (crossing the 100-step generation "
         "chunks), change_drift / change_volatility / set_correlation / remove_correlation at a time t <= horizon, clock advances of real Markets inside a "
@@ -67,7 +67,7 @@ def market_params(draw, n, vol_positive=False):
     for _ in range(n):
         vol = draw(st.floats(1e-4, 0.3)) if vol_positive or draw(st.booleans()) else 0.0
         out.append({"initial": draw(st.one_of(st.sampled_from([100.0, 300.0, 1.0]), st.floats(1e-3, 1e6))),
-                    "drift": draw(st.one_of(st.just(0.0), st.floats(-0.01, 0.01))), "vol": vol})
+                    "drift": draw(st.one_of(st.just(0.0), st.just(0), st.floats(-0.01, 0.01))), "vol": vol})  # (0 as a Python int too)
     return out
 
 
@@ -323,7 +323,7 @@ def stats_cases(draw, tier):
     for m in markets:
         m["vol"] = draw(st.sampled_from([0.001, 0.01, 0.05, 0.2]))
         m["initial"] = draw(st.sampled_from([100.0, 300.0, 5.0]))
-        m["drift"] = draw(st.sampled_from([0.0, 0.0005, -0.001, 0.002]))
+        m["drift"] = draw(st.sampled_from([0.0, 0, 0.0005, -0.001, 0.002]))
     corr = draw(corr_matrix(n)) if n >= 2 else None
     change = None
     if draw(st.booleans()):
@@ -334,7 +334,7 @@ def stats_cases(draw, tier):
         if kind == "vol":
             change = {"kind": "vol", "market": i, "value": draw(st.sampled_from([0.002, 0.02, 0.1])), "at": at}
         elif kind == "drift":
-            change = {"kind": "drift", "market": i, "value": draw(st.sampled_from([0.003, -0.002, 0.0])), "at": at}
+            change = {"kind": "drift", "market": i, "value": draw(st.sampled_from([0.003, -0.002, 0.0, 0])), "at": at}
         else:
             change = {"kind": "corr", "market": 0, "other": 1, "value": draw(st.sampled_from([-0.6, 0.0, 0.7])), "at": at}
     return {"seed": draw(st.integers(0, 2**31 - 1)), "markets": markets, "corr": corr, "N": 20000 if tier == "quick" else 50000,
@@ -469,7 +469,60 @@ def probe_check(case):
                     sample={"markets": case["markets"], "corr": case["corr"], "A": A.tolist()})
 
 
+# -- through the runner: which configured value is the initial one --------------------------------------------------------
+
+
+@st.composite
+def runner_cases(draw, tier):
+    n = draw(st.integers(1, 3))
+    cfg = {"simulation": {"markets": [f"M{i}" for i in range(n)], "agents": ["A"],
+                          "sessions": [{"sessionName": 0, "iterationSteps": draw(st.integers(1, 12)), "withOrderPlacement": False, "withOrderExecution": False,
+                                        "withPrint": False}]},
+           "A": {"class": "TestAgent", "numAgents": 1, "markets": ["M0"], "cashAmount": 100, "assetVolume": 1}}
+    for i in range(n):
+        m = {"class": "Market", "tickSize": 1.0}
+        keys = draw(st.sampled_from(["both", "both", "market", "fundamental"]))
+        if keys in ("both", "market"):
+            m["marketPrice"] = draw(st.sampled_from([300.0, 100, 55.5]))
+        if keys in ("both", "fundamental"):
+            m["fundamentalPrice"] = draw(st.sampled_from([400.0, 120, 55.5, 300.0]))
+        if draw(st.booleans()):
+            m["fundamentalDrift"] = draw(st.sampled_from([0.001, -0.002, 0]))
+        if draw(st.integers(0, 3)) == 0:
+            m["fundamentalVolatility"] = draw(st.sampled_from([0.01, 0.1]))
+        cfg[f"M{i}"] = m
+    return {"config": cfg, "seed": draw(st.integers(0, 2**31 - 1))}
+
+
+def runner_check(case):
+    import copy
+
+    from pams.logs.base import Logger
+    from pams.runners.sequential import SequentialRunner
+
+    r = SequentialRunner(settings=copy.deepcopy(case["config"]), prng=random.Random(case["seed"]), logger=Logger())
+    _call(r._setup)
+    _call(r._run)
+    both = False
+    for m in r.simulator.markets:
+        c = case["config"][m.name]
+        init = float(c["fundamentalPrice"]) if "fundamentalPrice" in c else float(c["marketPrice"])
+        both = both or ("fundamentalPrice" in c and "marketPrice" in c and c["fundamentalPrice"] != c["marketPrice"])
+        series = m.get_fundamental_prices()
+        if series[0] != init:
+            raise Violation("C12.initial_value", f"market {m.name} configured {c}: fundamental at time 0 is {series[0]!r}, expected {init!r}")
+        if c.get("fundamentalVolatility", 0.0) == 0.0:
+            for t, v in enumerate(series):
+                want = init * math.exp(float(c.get("fundamentalDrift", 0.0)) * t)
+                if not math.isclose(v, want, rel_tol=1e-9):
+                    raise Violation("C12.closed_form", f"market {m.name} configured {c}: fundamental at {t} is {v!r}, expected {want!r}")
+        elif not all(v > 0 and math.isfinite(v) for v in series):
+            raise Violation("C12.positive_finite", f"market {m.name}")
+    return CaseInfo(nontrivial=both, classes=["both_prices_given"] if both else [], sample=case["config"])
+
+
 PARTS = {
+    "runner": {"check": runner_check, "strategy": runner_cases, "budget": {"quick": 300, "thorough": 6000}},
     "machine": {"check": machine_check, "strategy": machine_cases, "budget": {"quick": 800, "thorough": 12000}},
     "stats": {"check": stats_check, "strategy": stats_cases, "budget": {"quick": 96, "thorough": 960}},
     "probe": {"check": probe_check, "strategy": probe_cases, "budget": {"quick": 400, "thorough": 6000}},
